@@ -1,0 +1,45 @@
+//go:build verif
+// +build verif
+
+// Contracts for package storage (build tag verif only; no executable code).
+package storage
+
+// ---------------------------------------------------------------------------------------------
+// C16: replica placement
+
+// math/rand.Shuffle (dependency, assumed): calls swap(i, j) with 0 <= i, j < n, any number of times, and does nothing else.
+//@ func math/rand.Shuffle
+//@ props C16
+//@ assume
+//@ repeats swap with 0 <= $a0 && $a0 < n && 0 <= $a1 && $a1 < n
+//@ requires [nonneg] n >= 0
+//@ modifies nothing
+
+//@ spec distinctU64(s []uint64) bool = forall i int, j int :: 0 <= i && i < j && j < len(s) ==> s[i] != s[j]
+//@ spec membersU64(s []uint64, book map[uint64]string) bool = forall i int :: 0 <= i && i < len(s) ==> has(book, s[i])
+//@ spec minInt(a int, b int) int = ite(a < b, a, b)
+
+// From the statement: every partition gets exactly min(R, N) distinct member nodes; partitions are placed independently,
+// which is required here in the form "no result shares storage with the shuffle buffer or with another result"
+// (a result that aliases the buffer is rewritten by every later shuffle).
+//@ func (*storage.Allocator).getPartitionsNodeIds
+//@ props C16
+//@ requires [conn] this.clusterConn != nil && this.clusterConn.addresses != nil
+//@ requires [counts] partitionCount <= 4294967295 && replicationFactor <= 4294967295
+//@ ensures [count] len(ret) == partitionCount
+//@ ensures [size] forall p int :: 0 <= p && p < len(ret) ==> len(ret[p]) == minInt(len(this.clusterConn.addresses), replicationFactor)
+//@ ensures [distinct] forall p int :: 0 <= p && p < len(ret) ==> distinctU64(ret[p])
+//@ ensures [members] forall p int :: 0 <= p && p < len(ret) ==> membersU64(ret[p], this.clusterConn.addresses)
+//@ ensures [independent] forall p int, q int :: 0 <= p && p < q && q < len(ret) && len(ret[p]) > 0 ==> ret[p].ref != ret[q].ref
+//@ modifies nothing
+//@ at call math/rand.Shuffle
+//@ callinv [perm-distinct] distinctU64(nodeIds) && membersU64(nodeIds, this.clusterConn.addresses)
+//@ callinv [results] forall p int :: 0 <= p && p < i ==> allocated(partitionsNodeIds[p]) && len(partitionsNodeIds[p]) == minInt(len(this.clusterConn.addresses), replicationFactor) && distinctU64(partitionsNodeIds[p]) && membersU64(partitionsNodeIds[p], this.clusterConn.addresses)
+//@ end
+//@ loop 1
+//@ invariant [range] 0 <= i && i <= partitionCount
+//@ invariant [buffer] len(nodeIds) == len(this.clusterConn.addresses) && distinctU64(nodeIds) && membersU64(nodeIds, this.clusterConn.addresses) && fresh(nodeIds)
+//@ invariant [results] forall p int :: 0 <= p && p < i ==> allocated(partitionsNodeIds[p]) && len(partitionsNodeIds[p]) == minInt(len(this.clusterConn.addresses), replicationFactor) && distinctU64(partitionsNodeIds[p]) && membersU64(partitionsNodeIds[p], this.clusterConn.addresses)
+//@ invariant [independent] forall p int, q int :: 0 <= p && p < q && q < i && len(partitionsNodeIds[p]) > 0 ==> partitionsNodeIds[p].ref != partitionsNodeIds[q].ref
+//@ invariant [noalias-buffer] forall p int :: 0 <= p && p < i && len(partitionsNodeIds[p]) > 0 ==> partitionsNodeIds[p].ref != nodeIds.ref
+//@ invariant [out] len(partitionsNodeIds) == partitionCount && fresh(partitionsNodeIds)
